@@ -247,7 +247,7 @@ def run_task(task):
     res["consts"] = list(consts)
     res["syntactic"] = syntactic_checks(stms, dst_stms, inp, outp, voc_src)
     # ---- universes
-    want = task.get("n_universes", 1 if tier == "quick" else 3)
+    want = task.get("n_universes", 1 if tier == "quick" else 2)
     unis = pick_universes(stms, dst_stms, opens, consts, tier, extra_pos, want)
     if not unis:
         res.update(status="skip", reason="source does not ground over any candidate universe (unsafe fragment?)")
